@@ -91,12 +91,12 @@ def _paragraph_content(text, features, used):
     return encoded
 
 
-def _cell_xml(text, features, used):
+def _cell_xml(text, features, used, attribute=""):
     if text == "":
         if "emptyp" in features:
             used.add("empty-paragraph")
-            return "<table:table-cell%s><text:p/></table:table-cell>"
-        return "<table:table-cell%s/>"
+            return "<table:table-cell%s><text:p/></table:table-cell>" % attribute
+        return "<table:table-cell%s/>" % attribute
     contents = _paragraph_content(text, features, used)
     if len(contents) > 1:
         if "paragraphs" in features:
@@ -107,7 +107,7 @@ def _cell_xml(text, features, used):
             body = "<text:p>%s</text:p>" % "<text:line-break/>".join(contents)
     else:
         body = "<text:p>%s</text:p>" % contents[0]
-    return '<table:table-cell%s office:value-type="string">' + body + "</table:table-cell>"
+    return '<table:table-cell%s office:value-type="string">' % attribute + body + "</table:table-cell>"
 
 
 def _row_xml(row, features, used):
@@ -127,7 +127,7 @@ def _row_xml(row, features, used):
         if count > 1:
             attribute = ' table:number-columns-repeated="%d"' % count
             used.add("number-columns-repeated")
-        cells.append(_cell_xml(items[index], features, used) % attribute)
+        cells.append(_cell_xml(items[index], features, used, attribute))
         index = end
     if trailing_run:
         cells.append('<table:table-cell table:number-columns-repeated="%d"/>' % trailing_run)
